@@ -3,6 +3,7 @@ package walletsim
 import (
 	"fmt"
 	"sort"
+	"strings"
 	"time"
 
 	"github.com/btcsuite/btcd/btcutil"
@@ -18,7 +19,7 @@ import (
 // C20 — a rejected broadcast leaves no trace; unconfirmed sends are re-offered.
 
 // answer classes of the backend for a broadcast
-var answerClasses = []string{"", "", "", "transport", "reject-fee", "reject-generic", "reject-conflict", "notify-received-fails"}
+var answerClasses = []string{"", "", "", "transport", "reject-fee", "reject-generic", "reject-conflict", "notify-received-fails", "notify-received-2nd-fails"}
 
 func genC20(r *core.Rand, p *core.Plan) {
 	p.Sched = []string{"rtb0", "rtb0", "rtb1", "random"}[r.Intn(4)]
@@ -61,7 +62,7 @@ func genC20(r *core.Rand, p *core.Plan) {
 			}
 			a := []int64{}
 			for j := 0; j < r.Range(0, 3); j++ {
-				a = append(a, int64(r.Intn(len(answerClasses)-1))) // not notify-received: irrelevant on re-broadcast
+				a = append(a, int64(r.Intn(7))) // not notify-received: irrelevant on re-broadcast
 			}
 			p.Ops = append(p.Ops, core.Op{K: "resend-answers", A: a})
 			p.Ops = append(p.Ops, core.Op{K: "start"})
@@ -164,6 +165,11 @@ func (x *world) armAnswer(class string) {
 	case "":
 	case "notify-received-fails":
 		x.client.FailNext["NotifyReceived"] = 1
+	case "notify-received-2nd-fails":
+		// SendOutputs subscribes twice: for the change address while the
+		// transaction is created, and for all own addresses before the
+		// broadcast. Fail only the second one.
+		x.client.FailNth["NotifyReceived"] = 2
 	default:
 		x.client.SendAnswers = append(x.client.SendAnswers, class)
 	}
@@ -199,10 +205,11 @@ func (rs *runState) sendx(step int, op core.Op) {
 	// whatever was armed and not consumed must not leak into later operations
 	x.client.SendAnswers = nil
 	x.client.FailNext["NotifyReceived"] = 0
+	x.client.FailNth["NotifyReceived"] = 0
 	env.Count("op.SendOutputs")
 	env.Eff()
 	reached := len(x.client.Sends) > nSends
-	if class != "" && (reached || class == "notify-received-fails") {
+	if class != "" && (reached || strings.HasPrefix(class, "notify-received")) {
 		env.Count("fault.backend-answer." + class)
 	}
 	after, serr := x.snap()
@@ -220,7 +227,7 @@ func (rs *runState) sendx(step int, op core.Op) {
 			if sigc == "" {
 				sigc = "honest-reject"
 			}
-			if !reached && class != "notify-received-fails" {
+			if !reached && !strings.HasPrefix(class, "notify-received") {
 				sigc = "no-broadcast"
 			}
 			x.fail("failed-send-left-trace:"+diffClass(d)+":answer="+sigc, "SendOutputs returned %q (backend answer class %q, broadcast reached backend: %v) but the wallet changed: %s", err, class, reached, d)
@@ -325,10 +332,11 @@ func (rs *runState) publish(step int, op core.Op) {
 	perr := x.w.PublishTransaction(tx, "")
 	x.client.SendAnswers = nil
 	x.client.FailNext["NotifyReceived"] = 0
+	x.client.FailNth["NotifyReceived"] = 0
 	env.Count("op.PublishTransaction")
 	env.Eff()
 	reached := len(x.client.Sends) > nSends
-	if class != "" && (reached || class == "notify-received-fails") {
+	if class != "" && (reached || strings.HasPrefix(class, "notify-received")) {
 		env.Count("fault.backend-answer." + class)
 	}
 	answer := ""
@@ -466,6 +474,39 @@ func (x *world) checkResend(label string) {
 	}
 	if len(unmined) > 0 {
 		x.env.Count("probe.resend-with-unmined")
+	}
+	// a re-broadcast that failed makes the wallet forget the transaction and
+	// its unconfirmed descendants
+	now := map[chainhash.Hash]*wire.MsgTx{}
+	for _, t := range unmined {
+		now[t.TxHash()] = t
+	}
+	final := map[chainhash.Hash]string{}
+	for _, s := range x.client.Sends {
+		final[s.TxID] = s.Answer
+	}
+	for _, s := range x.client.Sends {
+		if s.Answer != "reject" && s.Answer != "transport" {
+			continue
+		}
+		if final[s.TxID] != s.Answer {
+			continue // offered again later with another outcome
+		}
+		if now[s.TxID] != nil {
+			x.fail("rejected-rebroadcast-still-recorded:at="+at, "the re-broadcast of %s failed but it is still recorded as unconfirmed", short(s.TxID))
+			return
+		}
+		for _, t := range unmined {
+			for _, in := range t.TxIn {
+				if in.PreviousOutPoint.Hash == s.TxID {
+					x.fail("rejected-rebroadcast-descendant-still-recorded:at="+at, "the re-broadcast of %s failed but its unconfirmed child %s is still recorded", short(s.TxID), short(t.TxHash()))
+					return
+				}
+			}
+		}
+		if x.unminedChildAtStart[s.TxID] {
+			x.env.Count("probe.rejection-with-recorded-child")
+		}
 	}
 	authored := map[chainhash.Hash]bool{}
 	for _, t := range x.sent {
